@@ -36,6 +36,14 @@ def main(repo="/repo", outdir=None):
         if old != res["text"]:
             open(path, "w").write(res["text"])
         report[name] = {"errors": res["errors"], "changed": old != res["text"], "targets": res["targets"]}
+    import py2loop
+    importlib.reload(py2loop)
+    for name, res in py2loop.generate(repo).items():  # the training loops as state-transition functions (C15/C16)
+        path = os.path.join(outdir, name + ".lean")
+        old = open(path).read() if os.path.exists(path) else None
+        if old != res["text"]:
+            open(path, "w").write(res["text"])
+        report[name] = {"errors": res["errors"], "changed": old != res["text"], "targets": res["targets"]}
     import py2ast, targets_ast
     importlib.reload(py2ast); importlib.reload(targets_ast)
     res = py2ast.generate_ast(repo, targets_ast.SPECS)
